@@ -96,8 +96,8 @@ static int section(vf_t *v, int sec)
 		for (int i = 0; i < n; i++) {
 			int op = drv_below(4);
 			if (op == B_TIMEOUT) {
-				if (gen_to_used) continue;
-				long d = gen_now + (long)drv_below(6) - 1;
+				/* at most one unsatisfied timeout per dispatch (the scope); satisfied ones (due now or earlier) may follow it */
+				long d = gen_to_used ? gen_now - (long)drv_below(3) : gen_now + (long)drv_below(6) - 1;
 				do_call(op, d < 0 ? 0 : d, "B");
 			} else
 				do_call(op, 1 + drv_below(nf), "B");
@@ -209,6 +209,7 @@ static void gen(long seed, int nexec, int nops, int n, uint32_t b, uint32_t s, l
 			case 2: outside(B_KILL, 1 + drv_below(nf)); break;
 			default:
 				t += drv_below(3) == 0 ? drv_below(4) : 0;
+				if (drv_below(12) == 0 && t >= 3) t -= 1 + drv_below(3);      /* a clock that steps back a little */
 				if (t > tmax) t = tmax;     /* keep (horizon x scale) inside the property's 2^31 scope */
 				do_pass(t, "none");
 				break;
